@@ -836,6 +836,14 @@ void MathExplorer::run_special()
         table.push_back({ fn, QNAN, 2.5, SC_NAN, 0 });
         table.push_back({ fn, 2.5, QNAN, SC_NAN, 0 });
     }
+    {
+        // pow of a negative base with the LARGEST non-integer exponents of the type (the is_flint / is_odd tests of the
+        // fix-up work next to 2^(mantissa bits)): k + 0.5 just below 2^(p-1) and 2^p, p = 23 / 52
+        const int p = std::is_same<T, float>::value ? 23 : 52;
+        for (double y : { std::ldexp(1.0, p - 1) + 0.5, std::ldexp(1.0, p) - 0.5, std::ldexp(1.0, p - 2) + 0.25, -(std::ldexp(1.0, p - 1) + 0.5) })
+            for (double x : { -1.0, -2.0, -0.5 })
+                table.push_back({ "pow", x, y, SC_NAN, 0 });
+    }
     for (auto& sc : table)
     {
         const MFun* f = find_mfun(sc.fn);
